@@ -85,6 +85,9 @@ pub fn compare_all(rep: &mut Report, runner: &Runner, model: &Model, property: &
                     &replay_body(&c.before, &c.cfg, &c.cmds, ""),
                 );
             }
+            Some(m) if left_vocabulary(m) => {
+                rep.count("skipped:model-met-a-command-outside-the-vocabulary");
+            }
             Some(m) => {
                 let d = diff_obs(&c.imp, m);
                 if !d.is_empty() {
